@@ -163,4 +163,18 @@ META = {
         exhaustive={"quick": True, "thorough": True},
         assumptions=["reference relation = docs/conversion/tutorial.rst 'Type coercion' (type equality via an independent structural description of hints)"],
     ),
+    "C13": _m(
+        "one case = a generated pair of models (source kinds dataclass/NamedTuple/attrs/TypedDict/pydantic x destination kinds + plain __init__ class; 2-5 fields; nested "
+        "pairs to depth 2 reached as plain / List / Optional / Dict values) related by dropping, renaming, re-typing (custom coercer via link(coercer=) or coercer()), and "
+        "adding fields fed by link_constant(value / factory), link_function (model + ctx parameters + keyword-only model fields), extra converter parameters (same-named at "
+        "top level, from_param at any level) or allow_unlinked_optional defaults; the recipe realises the plan in shuffled order with decoys (later competing links / "
+        "constants that must lose; a same-named top-level parameter that must win over the source field but must not leak into nested models); built through "
+        "impl_converter / get_converter / ConversionRetort (+ per-call recipe=); executed on 3 source values. Oracle: evaluation of the plan (type-strict, field-wise), "
+        "source snapshot unchanged, stub signature and name preserved; + 12 directed linking-rule cases. distinct = (pair, source value, api); every case is non-trivial",
+        cases=(70, 1500), budget=(50, 420),
+        minimums={"quick": {"programs": 400, "conversions": 1000, "link_rename": 300, "link_function": 50, "link_constant_value": 80, "link_from_param": 40, "decoy_later_link": 40,
+                            "parameter_shadows_source_field": 30, "directed_cases": 12, "distinct_nontrivial": 1000}},
+        assumptions=["predicates inside conversion recipes are restricted to field ids, P[Model].field and from_param (their meaning is trivial)",
+                     "TypedDict sources always carry every key (an absent NotRequired key has no value to link: outside the statement's domain)"],
+    ),
 }
